@@ -192,9 +192,11 @@ def registers(I):
 def concrete_state(I, k):
     m = mapper()
     for j, r_ in enumerate(registers(I)):
+        if k == 2 and j % 2 == 0:
+            continue          # state 2 is partial: every other register stays symbolic (branch conditions survive)
         # moderate magnitudes only: amoco computes `cst << n` on Python ints before masking, so a
         # register-valued shift amount of 2^31 would allocate gigabytes
-        v = ((j * 37 + 11 + 5 * k) & 0xFF) if k == 0 else ((0xFFFF - 3 * j) & ((1 << r_.size) - 1))
+        v = ((j * 37 + 11 + 5 * k) & 0xFF) if k != 1 else ((0xFFFF - 3 * j) & ((1 << r_.size) - 1))
         try:
             m[r_] = cst(v, r_.size)
         except Exception:
@@ -300,7 +302,7 @@ def main(tier):
         e = -1 if I.be else 1
         specs = isa.module_specs(I, 0)
         fr = _random.Random("C10-footprint-" + name)
-        states[name] = [concrete_state(I, 0), concrete_state(I, 1)]
+        states[name] = [concrete_state(I, 0), concrete_state(I, 1), concrete_state(I, 2)]
         W.restore({name})
         pool = []
         for s in [x for x in specs for _ in range(per_spec)]:
